@@ -177,6 +177,17 @@ _FUNCTION_HASHES = weakref.WeakKeyDictionary()
 _FUNCTION_HASHES_LOCK = threading.RLock()
 
 
+def _reset_function_hashes_lock():
+    # A child forked while another thread of the parent held the lock would
+    # inherit it locked for ever.
+    global _FUNCTION_HASHES_LOCK
+    _FUNCTION_HASHES_LOCK = threading.RLock()
+
+
+if hasattr(os, "register_at_fork"):
+    os.register_at_fork(after_in_child=_reset_function_hashes_lock)
+
+
 ###############################################################################
 # class `MemorizedResult`
 ###############################################################################
